@@ -189,11 +189,19 @@ def p3(prog, ctx):
     # matrix and linear renderings read the same table with the same name list
     d = prog.func(LRC, "AssignedFeatureCounter.dump_grouped")
     t = src(d)
-    lin = [c for c in walk_no_nested(d) if isinstance(c, ast.Call) and src(c.func) == "linear_output_file.write" and "%.2f" in src(c)]
+    def _arg_text(c):
+        a = c.args[0] if c.args else None
+        if isinstance(a, ast.Name):
+            ds = [st for st in walk_no_nested(d) if isinstance(st, ast.Assign) and len(st.targets) == 1 and isinstance(st.targets[0], ast.Name)
+                  and st.targets[0].id == a.id]
+            if len(ds) == 1:
+                return src(ds[0].value)
+        return src(a) if a is not None else ""
+    lin = [c for c in walk_no_nested(d) if isinstance(c, ast.Call) and src(c.func) == "linear_output_file.write" and "%.2f" in _arg_text(c)]
     mat = [n for n in walk_no_nested(d) if isinstance(n, ast.ListComp) and "group_numeric_ids" in src(n)]
     if len(lin) != 1 or len(mat) != 1:
         raise AnalysisError("dump_grouped: linear/matrix writers not found")
-    if "self.ordered_groups[group_id]" not in src(lin[0]) or "self.feature_counter[feature_id]" not in src(mat[0]):
+    if "self.ordered_groups[group_id]" not in _arg_text(lin[0]) or "self.feature_counter[feature_id]" not in src(mat[0]):
         ctx.fail("P3", lin[0], d._qualname, src(lin[0]), "linear rendering does not name groups through ordered_groups[numeric id]")
     else:
         ctx.ok("P3", "%s:%d" % (LRC, lin[0].lineno), "linear: ordered_groups[numeric id]; matrix: counter.get(group_numeric_ids[name]) over the same table")
@@ -278,7 +286,44 @@ def p5(prog, ctx):
     ctx.floor("P5", "reads of <var>.read_group", n, 3)
 
 
+def p6(prog, ctx):
+    """The per-chromosome split of the read-group table: 'already written' is remembered per output file, not globally."""
+    f = prog.func(RG, "split_read_group_table")
+    n = 0
+    for w in walk_no_nested(f):
+        if not (isinstance(w, ast.Call) and isinstance(w.func, ast.Attribute) and w.func.attr == "write"
+                and isinstance(w.func.value, ast.Subscript)):
+            continue
+        n += 1
+        part_key = src(w.func.value.slice)
+        st = enclosing_stmt(w)
+        blk = st._parent.body if st in getattr(st._parent, "body", []) else getattr(st._parent, "orelse", [])
+        # sets that record what was written, updated next to the write
+        marks = [x.value for x in blk if isinstance(x, ast.Expr) and isinstance(x.value, ast.Call) and isinstance(x.value.func, ast.Attribute)
+                 and x.value.func.attr == "add"]
+        bad = None
+        for atom, pol in flow.guard_facts(w, f):
+            if isinstance(atom, ast.Compare) and len(atom.ops) == 1 and isinstance(atom.ops[0], (ast.In, ast.NotIn)):
+                seen = atom.comparators[0]
+                is_not_in = isinstance(atom.ops[0], ast.NotIn) == pol
+                if not is_not_in:
+                    continue
+                if any(src(mk.func.value) == src(seen) for mk in marks):
+                    # this is the 'not yet written' filter
+                    if not (isinstance(seen, ast.Subscript) and src(seen.slice) == part_key):
+                        bad = (atom, seen)
+        if bad:
+            ctx.fail("P6", bad[0], f._qualname, src(bad[0]), "a row is written to the file of partition `%s` only if the read is not in %s, which "
+                     "is not kept per partition: a read with alignments on two chromosomes is written to the first chromosome's file only, "
+                     "and is counted under NA on the other one" % (part_key, src(bad[1])))
+        else:
+            ctx.ok("P6", "%s:%d" % (RG, w.lineno), "rows for partition %s are de-duplicated per partition" % part_key)
+    ctx.floor("P6", "partitioned writes in split_read_group_table", n, 1)
+
+
 def run(prog, ctx):
+    ctx.rule("P6", "in split_read_group_table the 'already written' set consulted before a write to files[k] is indexed by the same k")
+    p6(prog, ctx)
     ctx.rule("P4", "statements controlled by a rendering flag (self.output_grouped_*) are writes to a file or assignments to names used "
                    "only inside that block - row selection and totals are independent of --counts_format")
     ctx.rule("P5", "every read of <v>.read_group with v a for-loop variable lies inside that loop (no stale loop variable)")
